@@ -901,7 +901,16 @@ func (s *session) redialForClient(oldConn net.Conn) bool {
 	if s.redialForClientLocked == nil {
 		return false
 	}
-	s.lock.Lock()
+	// A local Close() holds the lock while it waits for the pending calls:
+	// a call refused because of that Close() must not queue for the lock,
+	// or the two wait for each other for ever. A closing session is not
+	// redialed; that somebody else has redialed before still counts.
+	for !s.lock.TryLock() {
+		if s.checkStatus(statusActiveClosing, statusActiveClosed) {
+			return oldConn != s.getConn()
+		}
+		time.Sleep(time.Millisecond)
+	}
 	defer s.lock.Unlock()
 	vp("redial.locked", s, 0, 0)
 	// Avoid repeated calls from write and readDisconnected methods:
